@@ -265,3 +265,31 @@ func TestRegress_C19_scenario_taker_fee_share_after_restart(t *testing.T) {
 		t.Fatalf("%s", out.msg)
 	}
 }
+
+// TestRegress_C19_mint_provisions_after_reduction: the emission has been reduced twice (period 1 epoch, factor 2/3) when
+// the state is exported; the node initialised from the export must report the reduced provisions and mint the same
+// amounts as its source at the following epochs (fixed: InitGenesis reset the provisions to the genesis parameter).
+func TestRegress_C19_mint_provisions_after_reduction(t *testing.T) {
+	cfg := defaultCfg()
+	cfg.MintReductionPeriod = 1
+	leader := NewNode(Bootstrap(cfg))
+	defer leader.Close()
+	p := Plan{Cfg: cfg, ExportAt: 3}
+	var want []BlockResult
+	for i := 0; i < 5; i++ {
+		blk := Block{Dt: 24*time.Hour + time.Second, Votes: leader.Votes()}
+		br, err := leader.RunBlock(blk.Dt, nil, blk.Votes)
+		if err != nil {
+			t.Fatal(err)
+		}
+		p.Blocks = append(p.Blocks, blk)
+		want = append(want, br)
+	}
+	got := leader.App.MintKeeper.GetMinter(leader.ReadCtx()).EpochProvisions
+	if !got.LT(leader.App.MintKeeper.GetParams(leader.ReadCtx()).GenesisEpochProvisions) {
+		t.Fatalf("harness: the scenario no longer reduces the provisions before the export (provisions %s)", got)
+	}
+	if out := replicate(p, want, 2); out.msg != "" {
+		t.Fatalf("%s", out.msg)
+	}
+}
